@@ -365,15 +365,15 @@ func (p *l2Probe) OnRollbackTo(h uint32) error {
 	}
 	return nil
 }
-func (p *l2Probe) OnRollbackSeekTo(uint32)         {}
-func (p *l2Probe) Key() string                     { return p.key }
+func (p *l2Probe) OnRollbackSeekTo(uint32)          {}
+func (p *l2Probe) Key() string                      { return p.key }
 func (p *l2Probe) Snapshot() checkpoint.ICheckPoint { return p }
-func (p *l2Probe) GetHeight() uint32               { return 0 }
-func (p *l2Probe) SetHeight(uint32)                {}
-func (p *l2Probe) SavePeriod() uint32              { return math.MaxUint32 }
-func (p *l2Probe) SaveStartHeight() uint32         { return math.MaxUint32 }
-func (p *l2Probe) EffectivePeriod() uint32         { return math.MaxUint32 }
-func (p *l2Probe) DataExtension() string           { return ".l2probe" }
+func (p *l2Probe) GetHeight() uint32                { return 0 }
+func (p *l2Probe) SetHeight(uint32)                 {}
+func (p *l2Probe) SavePeriod() uint32               { return math.MaxUint32 }
+func (p *l2Probe) SaveStartHeight() uint32          { return math.MaxUint32 }
+func (p *l2Probe) EffectivePeriod() uint32          { return math.MaxUint32 }
+func (p *l2Probe) DataExtension() string            { return ".l2probe" }
 func (p *l2Probe) Generator() func(buf []byte) checkpoint.ICheckPoint {
 	return func([]byte) checkpoint.ICheckPoint { return p }
 }
